@@ -15,8 +15,8 @@ import vlib
 
 META = {
     "category": "proof",
-    "text": "Coq theorems (Scan/Props_C03.v, 17 theorems, all closed under the global context) over an executable model (Scan/Model.v, Scan/Skip.v) of KeyValueStore::range_scan, MemTable::range_scan, Version::range_scan and LsmTree::range_scan as they are after the F1 repair: the cursor the store returns = BoundsCursor(PruningCursor at the snapshot timestamp(MergingCursor[one BoundsCursor over the skiplist iterator per memtable, each seek_to_first()ed; MergingCursor[one LazyCursor per L0 file; per deeper level one ConcatenatingCursor over the LazyCursors of the files passing the two compare_bounds_le tests]])), built from the C11 combinator models over the C01 store model. Proved for EVERY store satisfying the Lsm invariant (hence after every accepted history of writes, flushes, compactions, garbage collections and reopens: C03_scan_after_history), every pair of bounds (all nine kinds, empty and inverted ranges) and every program of seek_to_first/seek_to_last/seek/prev/next calls: the cursor's observations equal those of the reference cursor over live_spec (C03_scan_correct), where live_spec lists exactly the entries x with key in range, load(key) = x at the same moment and x not a tombstone (C03_live_spec_characterised), in strictly ascending key order, each key once (C03_live_spec_ascending_once), = the keys whose last write in the history is a put, with that value (C03_live_spec_is_latest_puts); the nesting satisfies every combinator's precondition and its composed C11 specification is live_spec at any read timestamp (C03_scan_expr_wf, C03_scan_spec_is_live, C03_scan_at_any_timestamp, C03_scan_at_visible_seq_no); the memtable cursor is correct although the skiplist iterator's seek_to_first lands ON the first entry (C03_memtable_cursor); a snapshot holding an immutable memtable scans the same (C03_scan_with_immutable_memtable); no call ever fails, every observed entry is live and in range, a seek lands on the first live key >= target, full forward/backward walks list live_spec ascending/descending (C03_scan_never_fails, C03_scan_observes_only_live, C03_seek_lands, C03_forward_walk, C03_backward_walk); LsmTree::range_scan lists the live entries of the tree alone (C03_tree_scan_correct). The model is tied to lsmtk by lock-step replay of single-stepped real histories on the extracted model (flush contents, every compaction the real selector chose, tree shapes, sequence numbers) and a 3-way comparison of every scan: real cursor vs extracted run_scan / run_tree_scan vs a direct Python oracle (live keys of the reference map within the bounds, walked by a reference cursor), over all nine bound-kind combinations incl. empty and inverted ranges and cursor programs biased to direction reversals and boundary seeks; scans and point reads taken at the same moment are cross-checked key by key; scans are also taken while a flush is in progress (snapshot with an immutable memtable, incl. the window in which its sst is already in the tree) and cursors are used across later writes (snapshot stability).",
-    "note": "Trusted: Coq kernel; extraction (ExtrOcamlBasic) + ocaml/scan/mx_scan.ml; harness `c03` + lsmtk hooks (cfg blue_verif: verif_dump, verif_compaction_step, verif_request_flush/wait, verif_state, verif_tree, gate f_ingested); checks/c03_lib.py (frozen copy of lsmlib.py + scan comparison). Modelled, not verified here: the cursor combinators (C11: their models and theorems are imported), SstCursor as a table cursor over the file's entries (C10), the skiplist as a table in Key order with find_greater_or_equal/find_less_than/find_last stated by their results (C17), single-stepped execution (concurrency is C06/C07/C20); the snapshot taken between the ingest of a flushed sst and the clearing of the immutable memtable holds those entries twice, which is outside C11's distinctness precondition: exercised by the correspondence run only. Reopen is exercised in a separate stream; histories in which the known recovery defect K2 occurs are attributed to that class from the event on (recovery is an input of the model, validated per step as in C01).",
+    "text": "Coq theorems (Scan/Props_C03.v, 18 theorems, all closed under the global context) over an executable model (Scan/Model.v, Scan/Skip.v) of KeyValueStore::range_scan, MemTable::range_scan, Version::range_scan and LsmTree::range_scan as they are after the F1 repair: the cursor the store returns = BoundsCursor(PruningCursor at the snapshot timestamp(MergingCursor[one BoundsCursor over the skiplist iterator per memtable, each seek_to_first()ed; MergingCursor[one LazyCursor per L0 file; per deeper level one ConcatenatingCursor over the LazyCursors of the files passing the two compare_bounds_le tests]])), built from the C11 combinator models over the C01 store model. Proved for EVERY store satisfying the Lsm invariant (hence after every accepted history of writes, flushes, compactions, garbage collections and reopens: C03_scan_after_history; and after every accepted CONCURRENT compaction history: C03_scan_after_concurrent_history via Lsm's concurrent_invariant_reachable), every pair of bounds (all nine kinds, empty and inverted ranges) and every program of seek_to_first/seek_to_last/seek/prev/next calls: the cursor's observations equal those of the reference cursor over live_spec (C03_scan_correct), where live_spec lists exactly the entries x with key in range, load(key) = x at the same moment and x not a tombstone (C03_live_spec_characterised), in strictly ascending key order, each key once (C03_live_spec_ascending_once), = the keys whose last write in the history is a put, with that value (C03_live_spec_is_latest_puts); the nesting satisfies every combinator's precondition and its composed C11 specification is live_spec at any read timestamp (C03_scan_expr_wf, C03_scan_spec_is_live, C03_scan_at_any_timestamp, C03_scan_at_visible_seq_no); the memtable cursor is correct although the skiplist iterator's seek_to_first lands ON the first entry (C03_memtable_cursor); a snapshot holding an immutable memtable scans the same (C03_scan_with_immutable_memtable); no call ever fails, every observed entry is live and in range, a seek lands on the first live key >= target, full forward/backward walks list live_spec ascending/descending (C03_scan_never_fails, C03_scan_observes_only_live, C03_seek_lands, C03_forward_walk, C03_backward_walk); LsmTree::range_scan lists the live entries of the tree alone (C03_tree_scan_correct). The model is tied to lsmtk by lock-step replay of single-stepped real histories on the extracted model (flush contents, every compaction the real selector chose, tree shapes, sequence numbers) and a 3-way comparison of every scan: real cursor vs extracted run_scan / run_tree_scan vs a direct Python oracle (live keys of the reference map within the bounds, walked by a reference cursor), over all nine bound-kind combinations incl. empty and inverted ranges and cursor programs biased to direction reversals and boundary seeks; scans and point reads taken at the same moment are cross-checked key by key; observations are compared with their timestamps; scans are also taken while a flush is in progress with the memtable thread parked before the ingest (the snapshot of C03_scan_with_immutable_memtable, deterministic through gate f_sealed) and after it (gate f_ingested: the window in which the sst is already in the tree, compared with the extracted run_scan_dup); cursors are used across later writes with bounds and seeks on the written keys - that a live cursor keeps its snapshot while the memtable grows and the tree changes is PROVED by C07 (Snap/Props_C07.v C07_cursor_snapshot_stable), here it is exercised. NOT PROVED: the snapshot taken between the ingest of a flushed sst and the clearing of the immutable memtable holds every pair of that memtable twice under the store's MergingCursor; C11's merging/pruning theorems need distinct pairs, so this reachable class is outside every theorem (stated in the header of Props_C03.v; no disagreement seen in about 700 forced cases per quick run).",
+    "note": "Trusted: Coq kernel; extraction (ExtrOcamlBasic) + ocaml/scan/mx_scan.ml; harness `c03` + lsmtk hooks (cfg blue_verif: verif_dump, verif_compaction_step, verif_request_flush/wait, verif_state, verif_tree, gate f_ingested); checks/c03_lib.py (frozen copy of lsmlib.py + scan comparison). Modelled, not verified here: the cursor combinators (C11: their models and theorems are imported), SstCursor as a table cursor over the file's entries (C10), the skiplist as a table in Key order with find_greater_or_equal/find_less_than/find_last stated by their results (C17), single-stepped execution (concurrency is C06/C07/C20); the snapshot taken between the ingest of a flushed sst and the clearing of the immutable memtable holds those entries twice, which is outside C11's distinctness precondition: exercised by the correspondence run only. Reopen is exercised in a separate stream; from a K2 reopen on the latest-write specification no longer binds, but the implementation is still compared with the EXTRACTED MODEL on the recovered version and errors/panics/hangs still count, unless the recovered tree is not even well-formed (then everything is attributed to K2; recovery is an input of the model, validated per step as in C01).",
 }
 
 PROPS = "theories/Scan/Props_C03.v"
@@ -66,9 +66,17 @@ def mk_bound(kind, k):
     return ("U", None) if kind == "U" else (kind, k)
 
 
-def gen_bounds(rng, universe):
+def gen_bounds(rng, universe, live=None):
     """all nine kind pairs; equal keys with I/E mixes (the empty ranges [k,k) (k,k] (k,k) and the
-    point range [k,k]); inverted ranges (lo > hi); ordinary ordered ranges"""
+    point range [k,k]); inverted ranges (lo > hi); ordinary ordered ranges.  With `live` (the keys
+    whose latest write is a put, at this moment) three fifths of the pairs are drawn around them, so
+    that most scans have something to return."""
+    if live and rng.chance(3, 5):
+        i = rng.below(len(live))
+        j = rng.range(i, min(len(live) - 1, i + rng.choice([0, 1, 2, 4, 8])))
+        lo = mk_bound(rng.choice(["U", "I", "I", "E"]), live[i] if rng.chance(3, 4) else near_miss(rng, [live[i]]))
+        hi = mk_bound(rng.choice(["U", "I", "I", "E"]), live[j] if rng.chance(3, 4) else near_miss(rng, [live[j]]))
+        return lo, hi
     m = rng.below(100)
     if m < 50:
         return mk_bound(rng.choice(KINDS), bound_key(rng, universe)), mk_bound(rng.choice(KINDS), bound_key(rng, universe))
@@ -144,27 +152,43 @@ def gen_prog(rng, universe, lo, hi):
     return prog[:14]
 
 
-def gen_scan_point(rng, universe, light=False):
+def gen_scan_point(rng, universe, light=False, live=None):
     """seqcheck + a handful of scans + sometimes a tree scan + sometimes scan-and-point-reads"""
     ops = [("seq",)]
     for _ in range(rng.range(1, 2) if light else rng.range(3, 6)):
-        lo, hi = gen_bounds(rng, universe)
+        lo, hi = gen_bounds(rng, universe, live)
         ops.append(("scan", lo, hi, gen_prog(rng, universe, lo, hi)))
     if rng.chance(1, 6 if light else 3):
-        lo, hi = gen_bounds(rng, universe)
+        lo, hi = gen_bounds(rng, universe, live)
         ops.append(("tscan", lo, hi, gen_prog(rng, universe, lo, hi)))
     if rng.chance(1, 8 if light else 4):
-        lo, hi = gen_bounds(rng, universe) if rng.chance(2, 3) else (("U", None), ("U", None))
+        lo, hi = gen_bounds(rng, universe, live) if rng.chance(2, 3) else (("U", None), ("U", None))
         keys = list(universe) + ([near_miss(rng, universe)] if rng.chance(1, 2) else [])
         ops.append(("scanget", lo, hi, keys))
     if not light and rng.chance(1, 5):
         # a cursor used across writes: it is a snapshot of its creation time
-        lo, hi = gen_bounds(rng, universe) if rng.chance(1, 2) else (("U", None), ("U", None))
         writes = [(rng.choice(universe), None if rng.chance(1, 3) else rng.bytes(rng.choice([0, 1, 5]))) for _ in range(rng.range(1, 3))]
+        wk = sorted(k for k, _ in writes)
+        c = rng.below(10)
+        if c < 3:
+            lo, hi = ("U", None), ("U", None)
+        elif c < 5:
+            lo, hi = gen_bounds(rng, universe, live)
+        elif c < 7:
+            # a written key IS a bound (all four I/E mixes, and one-sided)
+            lo, hi = mk_bound(rng.choice(KINDS), wk[0]), mk_bound(rng.choice(KINDS), wk[-1])
+        elif c < 9:
+            # the written keys lie strictly inside / just outside the range
+            a, b = bound_key(rng, universe), bound_key(rng, universe)
+            lo, hi = mk_bound(rng.choice(KINDS), min(a, b, wk[0])), mk_bound(rng.choice(KINDS), max(a, b, wk[-1]))
+        else:
+            lo, hi = mk_bound(rng.choice(["I", "E"]), wk[-1]), mk_bound(rng.choice(["I", "E", "U"]), bound_key(rng, universe))
         p1, p2 = gen_prog(rng, universe, lo, hi)[:7], gen_prog(rng, universe, lo, hi)[:7]
+        if rng.chance(2, 3):
+            # the cursor sits on / next to a key that is then written (seek to it, maybe one step away)
+            p1 = p1[:4] + [("S", rng.choice(wk))] + ([rng.choice([N, P])] if rng.chance(1, 3) else [])
         if rng.chance(1, 2):
-            # the written keys are where the cursor is / is heading
-            p1 = p1[:4] + [("S", writes[0][0])]
+            p2 = [rng.choice([N, P, ("S", rng.choice(wk))])] + p2[:6]
         ops.append(("scanw", lo, hi, p1, writes, p2))
     return ops
 
@@ -197,7 +221,9 @@ def gen_history(rng, n_ops, universe, reopen=False):
                 lo, hi = gen_bounds(rng, universe) if rng.chance(2, 3) else (("U", None), ("U", None))
                 # half of them with the memtable thread parked between the ingest of the new sst and the
                 # clearing of the immutable memtable (the snapshot then holds those entries twice)
-                ops.append(("flushscan", lo, hi, gen_prog(rng, universe, lo, hi)[:8], gen_prog(rng, universe, lo, hi)[:8], rng.chance(1, 2)))
+                # a third parked BEFORE the ingest (gate f_sealed: the snapshot of C03_scan_with_immutable_memtable,
+                # for certain), a third parked after it, a third racing
+                ops.append(("flushscan", lo, hi, gen_prog(rng, universe, lo, hi)[:8], gen_prog(rng, universe, lo, hi)[:8], rng.choice(["pre", "gate", ""])))
             else:
                 ops.append(("flush",))
             ops.append(("sp", rng.below(1 << 48)))
@@ -223,11 +249,12 @@ def do_scan_op(run, op):
     elif op[0] == "scanw":
         run.scanw(op[1], op[2], op[3], op[4], op[5])
     elif op[0] == "flushscan":
-        run.flushscan(op[1], op[2], op[3], op[4], bool(op[5]) if len(op) > 5 else False)
+        run.flushscan(op[1], op[2], op[3], op[4], op[5] if len(op) > 5 else False)
 
 
 def scan_point(run, seed, universe, light=False):
-    for op in gen_scan_point(vlib.Rng(seed), universe, light):
+    live = sorted(k for k, v in run.spec.items() if v is not None)
+    for op in gen_scan_point(vlib.Rng(seed), universe, light, live):
         if run.dead:
             break
         do_scan_op(run, op)
@@ -278,6 +305,7 @@ class Summary:
         self.n_steps, self.n_reads, self.events = run.n_steps, run.n_reads, run.events[-15:]
         self.n_scans, self.n_tscans, self.n_scangets, self.n_obs, self.n_seqchecks = run.n_scans, run.n_tscans, run.n_scangets, run.n_obs, run.n_seqchecks
         self.sstats, self.fps, self.sample_scans = run.sstats, run.fps, run.sample_scans
+        self.not_wf_from = run.not_wf_from
 
 
 def _job(args):
@@ -381,7 +409,7 @@ def ops_to_json(ops):
         elif op[0] == "scanget":
             out.append([op[0], bstr(op[1]), bstr(op[2]), ",".join(L.hx(k) for k in op[3])])
         elif op[0] == "flushscan":
-            out.append([op[0], bstr(op[1]), bstr(op[2]), L.prog_str(op[3]), L.prog_str(op[4]), bool(op[5]) if len(op) > 5 else False])
+            out.append([op[0], bstr(op[1]), bstr(op[2]), L.prog_str(op[3]), L.prog_str(op[4]), op[5] if len(op) > 5 else False])
         elif op[0] == "scanw":
             out.append([op[0], bstr(op[1]), bstr(op[2]), L.prog_str(op[3]), [[k.hex(), None if v is None else v.hex()] for k, v in op[4]], L.prog_str(op[5])])
         else:
@@ -399,7 +427,7 @@ def ops_from_json(js):
         elif op[0] == "scanget":
             out.append((op[0], L.parse_bound(op[1]), L.parse_bound(op[2]), [L.unhx(k) for k in op[3].split(",") if k]))
         elif op[0] == "flushscan":
-            out.append((op[0], L.parse_bound(op[1]), L.parse_bound(op[2]), L.parse_prog(op[3]), L.parse_prog(op[4]), bool(op[5]) if len(op) > 5 else False))
+            out.append((op[0], L.parse_bound(op[1]), L.parse_bound(op[2]), L.parse_prog(op[3]), L.parse_prog(op[4]), op[5] if len(op) > 5 else False))
         elif op[0] == "scanw":
             out.append((op[0], L.parse_bound(op[1]), L.parse_bound(op[2]), L.parse_prog(op[3]),
                         [(bytes.fromhex(k), None if v is None else bytes.fromhex(v)) for k, v in op[4]], L.parse_prog(op[5])))
@@ -441,18 +469,23 @@ def verdict(chk, results, info, ok_proof):
     known.update(mine)
     reported = 0
     corr_only = []
-    attributed = {"histories_with_known_event": 0, "problems_after_known_event": 0}
+    attributed = {"histories_with_known_event": 0, "problems_after_known_event": 0, "histories_recovered_not_wf": 0,
+                  "live_problems_after_known_event": 0}
     for name, optname, ops, run in results:
         first_known = min([e[2] for e in run.known_events if e[0] in known], default=None)
         unlisted = [e for e in run.known_events if e[0] not in known]
-        fresh = [p for p in run.problems if first_known is None or p["at_event"] < first_known]
+        fresh = fresh_problems(run, first_known)
         if first_known is not None:
             attributed["histories_with_known_event"] += 1
             attributed["problems_after_known_event"] += run.n_problems - len(fresh)
+            attributed["histories_recovered_not_wf"] += (run.not_wf_from is not None)
+            attributed["live_problems_after_known_event"] += sum(1 for p in fresh if p["at_event"] >= first_known)
         for e in run.known_events:
             if e[0] in mine:
                 chk.known(e[0], mine[e[0]])
-        prop = [p for p in fresh if p["kind"] in PROPERTY_KINDS]
+        # after a known-class event a surviving (live) problem says the implementation left the extracted
+        # model or failed outright: a concrete input, reported like a property failure
+        prop = [p for p in fresh if p["kind"] in PROPERTY_KINDS or (first_known is not None and p["at_event"] >= first_known)]
         if prop:
             if reported < 3:
                 p0 = prop[0]
@@ -480,6 +513,22 @@ def verdict(chk, results, info, ok_proof):
         chk.violation("c03_unproved.json", {"kind": "no-failing-input-found", "broken": info.get("broken", []),
                                             "correspondence": [c[1] for c in corr_only[:3]]}, no_input=True)
     return reported, len(corr_only), attributed
+
+
+def fresh_problems(run, first_known):
+    """the problems of a history that count.  Before the first event of a known class: all.  From it
+    on the latest-write specification no longer binds (that is the known defect), but the
+    implementation must still agree with the EXTRACTED MODEL, which adopts the recovered version,
+    and must not panic, hang or fail: problems marked `live` (impl != model, errors, scan vs point
+    read of one key) keep counting - until the tree is not even well-formed (recovered wf=0, or a
+    later compaction of the mis-ordered tree yields overlapping files): from there on the model's
+    partition points and the real binary searches may differ and selector asserts are a stated
+    consequence of K2, so everything is attributed."""
+    if first_known is None:
+        return list(run.problems)
+    cut = run.not_wf_from
+    return [p for p in run.problems
+            if p["at_event"] < first_known or (p.get("live") and (cut is None or p["at_event"] < cut))]
 
 
 _UNIVERSES = {}      # history name -> key universe (for replay files)
@@ -606,8 +655,8 @@ def replay(path):
     r = run_history(exe, mx, dict(OPTION_SETS)[obj.get("options", "default-limits")], ops, "c03r", uni)
     known = {k[1] for k in vlib.known_findings("C03") + vlib.known_findings("C01") if k[0] == "known"}
     first_known = min([e[2] for e in r.known_events if e[0] in known], default=None)
-    fresh = [p for p in r.problems if first_known is None or p["at_event"] < first_known]
-    bad = [p for p in fresh if p["kind"] in PROPERTY_KINDS]
+    fresh = fresh_problems(r, first_known)
+    bad = [p for p in fresh if p["kind"] in PROPERTY_KINDS or (first_known is not None and p["at_event"] >= first_known)]
     for p in bad[:5]:
         print("FAILS NOW: %s %s %s %s" % (p.get("op"), p.get("lo"), p.get("hi"), p.get("prog")))
         print("  impl  :", p.get("impl", p.get("out")))
